@@ -45,6 +45,9 @@ pub enum CompanionOp {
     CollectionClose,
     CloseCollection,
     DbClose,
+    /// a sibling add in flight on the same handle, and a third task that
+    /// reopens the collection as soon as the cancellation has poisoned it
+    SiblingAddReopen,
 }
 
 #[derive(Clone, Debug, Serialize, Deserialize)]
@@ -100,11 +103,12 @@ pub fn generate_cancel(case_seed: u64, idx: u64, _tier: Tier) -> CancelCase {
     }
     let companion = if matches!(target, Target::Doc(DOp::Add(_) | DOp::Update { .. } | DOp::Remove { .. } | DOp::SaveExt { .. })) && rng.chance(1, 2) {
         Some(Companion {
-            what: match rng.below(4) {
+            what: match rng.below(6) {
                 0 => CompanionOp::Flush,
                 1 => CompanionOp::CollectionClose,
                 2 => CompanionOp::CloseCollection,
-                _ => CompanionOp::DbClose,
+                3 => CompanionOp::DbClose,
+                _ => CompanionOp::SiblingAddReopen,
             },
             delay: rng.range(1, 8) as u32,
         })
@@ -138,6 +142,11 @@ fn setup(case: &CancelCase) -> Result<Setup, Violation> {
     cfg.park = false;
     cfg.clock = case.clock.clone();
     cfg.record_trace = false;
+    if matches!(&case.companion, Some(c) if c.what == CompanionOp::SiblingAddReopen) && simcore::rng::derive(case.seed, "starve-sibling") % 2 == 0 {
+        // keep the sibling (task 1) parked for as long as anybody else can move:
+        // it is then still in flight when the reopen decides whether to wait for it
+        cfg.schedule = simcore::Schedule::Seeded { seed: case.seed, policy: simcore::Policy::Starve(1) };
+    }
     let sim = Sim::new(&cfg);
     sim.install_clock_here();
     let store = SimStore::new(sim.clone(), InMemory::new());
@@ -214,6 +223,100 @@ fn run_one(case: &CancelCase, k: u64, rep: &mut RunReport, sig: &mut Sig) -> Res
             let comp_result: std::cell::RefCell<Option<(u64, Result<(), String>)>> = std::cell::RefCell::new(None);
             let r = match &case.companion {
                 None => s.sim.run1(cancel_at(async { w2.exec(op).await }, k)).map_err(|o| violation!("c06.liveness", "{ctx}: scheduler outcome {o:?}"))?,
+                Some(comp) if comp.what == CompanionOp::SiblingAddReopen => {
+                    let slot: std::cell::RefCell<Option<Result<Outcome, u64>>> = std::cell::RefCell::new(None);
+                    let sib: std::cell::RefCell<Option<Result<u64, String>>> = std::cell::RefCell::new(None);
+                    let reopened: std::cell::RefCell<Option<(u64, std::sync::Arc<anda_db::collection::Collection>, bool)>> = std::cell::RefCell::new(None);
+                    let (sim2, sim3, sim4) = (s.sim.clone(), s.sim.clone(), s.sim.clone());
+                    let db = s.world.db.clone();
+                    let (c3, c4) = (coll.clone(), coll.clone());
+                    let (slot_r, cancel_r, sib_r, reopened_r) = (&slot, &cancel_seq, &sib, &reopened);
+                    let w2r = &mut w2;
+                    let sib_doc = DocSpec { name: 201, age: 9, score: Some(9), tags: vec![1], body: vec![3], vec: [1, 0, 1, 0] }.to_doc(&vocab);
+                    let ix = knobs.indexes;
+                    // starved variant (see `setup`): the sibling starts at once, is admitted
+                    // and parks at its first storage call, and stays there while anybody
+                    // else can move
+                    let delay = if simcore::rng::derive(case.seed, "starve-sibling") % 2 == 0 { 0 } else { comp.delay };
+                    let victim: simcore::sim::LocalTask = Box::pin(async move {
+                        let r = cancel_at(async { w2r.exec(op).await }, k).await;
+                        if r.is_err() {
+                            cancel_r.set(Some(sim2.tick()));
+                        }
+                        *slot_r.borrow_mut() = Some(r);
+                    });
+                    let sibling: simcore::sim::LocalTask = Box::pin(async move {
+                        for _ in 0..delay {
+                            sim3.yield_now().await;
+                        }
+                        let r = c3.add_from(&sib_doc).await.map_err(|e| format!("{e:?}"));
+                        *sib_r.borrow_mut() = Some(r);
+                    });
+                    let reopener: simcore::sim::LocalTask = Box::pin(async move {
+                        for _ in 0..400 {
+                            if c4.is_poisoned() {
+                                break;
+                            }
+                            if slot_r.borrow().is_some() {
+                                return; // the victim finished without poisoning anything
+                            }
+                            sim4.yield_now().await;
+                        }
+                        if !c4.is_poisoned() {
+                            return;
+                        }
+                        let sibling_pending_before = sib_r.borrow().is_none();
+                        if let Ok(c) = db.open_collection(COLL.to_string(), async |c| install_indexes(c, ix).await).await {
+                            *reopened_r.borrow_mut() = Some((sim4.tick(), c, sibling_pending_before && sib_r.borrow().is_none()));
+                        }
+                    });
+                    let out = s.sim.run(vec![victim, sibling, reopener]);
+                    if out != simcore::sim::Outcome::Done {
+                        return Err(violation!("c06.liveness", "{ctx} with a sibling add and a reopen: scheduler outcome {out:?}"));
+                    }
+                    s.sim.set_park(false);
+                    let r = slot.borrow_mut().take().expect("victim result");
+                    if let (Err(_), Some((reopen_seq, c2, sibling_pending_before))) = (&r, reopened.borrow_mut().take()) {
+                        rep.fire("cancellation", 1);
+                        rep.probe("reopened_after_poison_with_sibling_task", 1);
+                        if sibling_pending_before {
+                            // (with the drain in place this cannot happen: the reopen waits)
+                            rep.probe("sibling_add_still_in_flight_when_reopen_returned", 1);
+                        }
+                        match sib.borrow().as_ref() {
+                            Some(Ok(_)) => rep.probe("sibling_add_acknowledged", 1),
+                            _ => rep.probe("sibling_add_refused", 1),
+                        }
+                        sig.add(k);
+                        let p = format!("{DB_NAME}/{COLL}/");
+                        let late: Vec<String> = s.sim.mut_log_since(log_mark).into_iter().filter(|m| m.task == 1 && m.seq > reopen_seq && m.applied && m.path.contains(&p)).map(|m| format!("{} {}", m.kind.short(), m.path)).collect();
+                        if std::env::var("SIM_TRACE").is_ok() && sibling_pending_before {
+                            let all: Vec<String> = s.sim.mut_log_since(log_mark).into_iter().map(|m| format!("seq{} t{} {} {} applied={}", m.seq, m.task, m.kind.short(), m.path, m.applied)).collect();
+                            eprintln!("DEBUG reopen_seq={reopen_seq} sib={:?} log={all:?}", sib.borrow());
+                        }
+                        if !late.is_empty() {
+                            return Err(violation!(
+                                "c06.retired-handle-wrote-after-reopen",
+                                "{ctx}: open_collection had returned a fresh handle, then the sibling add still in flight on the retired (poisoned) handle wrote {:?}",
+                                &late[..late.len().min(3)]
+                            ));
+                        }
+                        let obs = block(observe(&c2, knobs.indexes, &vocab, s.max_id + 3)).map_err(|mut v| {
+                            v.message = format!("{ctx} with a sibling add (fresh handle): {}", v.message);
+                            v
+                        })?;
+                        if let Some(Ok(id)) = sib.borrow().as_ref() {
+                            if !obs.docs.contains_key(id) {
+                                return Err(violation!("c06.acked-lost-across-reopen", "{ctx}: the sibling add was acknowledged with id {id} on the retired handle, but the handle open_collection returned does not contain it (ids {:?})", obs.docs.keys()));
+                            }
+                        }
+                        let next = DocSpec { name: 200, age: 8, score: Some(8), tags: vec![], body: vec![4], vec: [0, 1, 1, 0] }.to_doc(&vocab);
+                        block(c2.add_from(&next)).map_err(|e| violation!("c06.fresh-handle-broken", "{ctx}: the next add on the handle open_collection returned failed: {e:?}"))?;
+                        return Ok(false);
+                    }
+                    s.sim.set_park(true);
+                    r
+                }
                 Some(comp) => {
                     let slot: std::cell::RefCell<Option<Result<Outcome, u64>>> = std::cell::RefCell::new(None);
                     let sim2 = s.sim.clone();
@@ -240,6 +343,7 @@ fn run_one(case: &CancelCase, k: u64, rep: &mut RunReport, sig: &mut Sig) -> Res
                             CompanionOp::CollectionClose => c3.close().await,
                             CompanionOp::CloseCollection => db.close_collection(COLL).await,
                             CompanionOp::DbClose => db.close().await,
+                            CompanionOp::SiblingAddReopen => Ok(()),
                         };
                         *comp_r.borrow_mut() = Some((started, r.map_err(|e| format!("{e:?}"))));
                     });
